@@ -25,6 +25,9 @@ CLAIMED = {
  "C07": ("PC", "deterministic simulation of the real h1::Payload channel: seeded search over interleavings of single feeder/reader operations with counting wakers, checked operation by operation against a byte-queue reference model",
          "Seeded exploration: sequences of up to 14 single operations (feed_data with sizes straddling 32 KiB, feed_eof, set_error, sender drop, need_read, reader poll, unread_data, reader drop) in every interleaving the generator draws, against a reference model (byte queue + eof/err/sender-gone). Exact bytes, truthful ending (error before clean end, never a clean end for a cut-short body), reader wake-up on every event after a Pending poll, feeder wake-up once drained below the limit. Sampling (≈3M sequences per quick run), not proof.",
          "The reader stops polling once it has observed an end; when exactly Pause is reported is C05's subject.", "§4 C07"),
+ "C08": ("H2", "deterministic simulation of the real HTTP/2 server path against the h2 crate's client endpoint over a simulated duplex pipe: seeded search over body chunkings x window sizes x per-stream read/grant schedules x byte-movement interleavings x stalled and reset streams",
+        "Seeded exploration: one HTTP/2 connection with 1–5 concurrent streams served by the real HttpService/h2::Dispatcher (handle_response, prepare_response); bodies None/whole/sized/streamed with empty chunks, chunks equal to, one above and many times the stream window, up to 90 KB, Pending between chunks, bodies that fail mid-way, HEAD, 204/304, handler-set HTTP/1-only headers; stream windows from 1 byte to 200 KB, frame sizes 16–100 KB; the simulator moves bytes in either direction in pieces from 1 byte to everything, grants each client stream one read (one window release) at a time, holds some streams unread until all others have finished, resets others after k chunks. Each stream must deliver exactly the bytes its body produced (nothing for HEAD/204/304), a content-length equal to the body when present, no connection-specific header, an error rather than a clean end when the body failed; streams other than the unread ones must finish while those are held; everything finishes once the held streams are read. Sampling, not proof.",
+        "Response tasks are spawned by the dispatcher on the runtime (actix_rt::spawn): the simulator lets them run once per step in the runtime's FIFO order, so their relative order is deterministic but not searched. The h2 crate (both endpoints) is trusted. The connection window is kept larger than what unread streams can hold.", "§4 C08"),
  "C11": ("WK", "deterministic simulation of one real App service instance (one worker) shared by several HTTP/1 connections over scripted sockets: seeded search over request histories x interleavings of delivery, handler suspension, clone release and connection abort; metamorphic oracle against a fresh service instance plus sent-vs-seen oracle",
         "Seeded exploration: 2–12 requests over 1–4 connections through ONE App/AppInitService (scopes with their own app_data, named and parameterised resources, a middleware that sets a request extension for some requests, on_connect data per connection) under simulator-chosen interleavings: which connection's request is delivered next, when a gated handler resumes, when kept HttpRequest clones are dropped (delayed recycling), a connection task dropped while its handler is suspended, and every 50th run 135 parked requests so that the 128-entry request pool overflows. Each handler dumps everything reachable from HttpRequest (method, URI, version, headers, match_info, match name/pattern, extensions, connection data, app_data at each level, peer address) at entry and after its suspension; each dump must equal the dump a freshly built service instance gives for that request alone, must equal what the peer sent, and must not change across the suspension. Sampling, not proof.",
         "The message pool of actix-http is thread-local and therefore shared with the reference run; the sent-vs-seen oracle covers what that could mask. HTTP/1 only.", "§4 C11"),
